@@ -70,7 +70,7 @@ ModelTx(k, mask, order) ==
 \* the transaction as the VM places it in memory: malleable fields zeroed, witnesses kept
 Placed(t) == [TX!PrepareSign(t) EXCEPT !.witnesses = t.witnesses]
 
-Masks == IF Thorough THEN {0, 63, 42, 21, 32, 8} ELSE {0, 63}
+Masks == IF Thorough THEN {0, 63, 42, 21, 32, 8} ELSE {42}
 Orders == IF Thorough THEN {1, 2} ELSE {1}
 Undefined == {0, 8, 15, 16, 256, 267, 520, 526, 546, 575, 588, 773, 774, 777, 1026, 1279, 1287, 1542, 1794, 2049, 2303, 2310, 4095}
 Sels == GtfSelectors \cup Undefined
@@ -112,15 +112,16 @@ Bad(S) == {o \in S : ~o.ok}
 Total == Outs # {}
 \* at most one answer and at most one refusal; two outcomes only where the table declares a choice
 OutcomeShape == /\ Cardinality(Good(Outs)) <= 1
-                /\ Cardinality(Bad(Outs) \ {Fail(IMI)}) <= 1
+                /\ (IF Listed THEN Bad(Outs) \subseteq Fails(RowC.nf \cup {IMI}) ELSE Cardinality(Bad(Outs)) <= 1)
                 /\ \A o \in Outs : o.ok => (o.ptr <=> RowC.r \in PointerKinds)
 UnknownSelector == ~Def => Outs = {Fail(IMI)}
 WrongKind == Def =>
     /\ (Tx.kind \notin RowC.k \cup RowC.g => Outs = {Fail(IMI)})
     /\ (Tx.kind \in RowC.g => Fail(IMI) \in Outs)
-    /\ (Tx.kind \in RowC.k => Fail(IMI) \notin Outs)
+    /\ ((Tx.kind \in RowC.k /\ Fail(IMI) \in Outs) => (Listed /\ (~InRange \/ IMI \in RowC.nf)))
     /\ RowC.k \cap RowC.g = {}
-OutOfRange == (Listed /\ ~InRange) => (Outs \ {Fail(IMI)}) = {Fail(ScopeMiss(RowC.sc))}
+\* an index outside the list always fails, with the list's not-found reason or as an invalid identifier
+OutOfRange == (Listed /\ ~InRange) => (Outs = Fails(RowC.nf \cup {IMI}) /\ ScopeMiss(RowC.sc) \in RowC.nf)
 \* an element that is there, of a variant the selector is for, with the field present on the wire: exactly one answer
 InRangeAnswered ==
     (Listed /\ InRange /\ Tx.kind \in RowC.k) =>
@@ -128,9 +129,9 @@ InRangeAnswered ==
             other == typed /\ Elem.kind \notin RowC.fam \cup RowC.gfam
             gray  == typed /\ (Elem.kind \in RowC.gfam
                                \/ (RowC.sc = "input" /\ RowC.p # <<>> /\ Elem.kind \in RowC.fam /\ RowC.p[1] \in TX!Variant(TX!InputT, Elem.kind).absent))
-        IN /\ (other => Outs = {Fail(ScopeMiss(RowC.sc))})
+        IN /\ (other => Outs = Fails(RowC.nf))
            /\ ((~other /\ ~gray) => (Cardinality(Outs) = 1 /\ Good(Outs) = Outs))
-           /\ ((~other /\ gray) => (Cardinality(Good(Outs)) = 1 /\ Bad(Outs) = {Fail(ScopeMiss(RowC.sc))}))
+           /\ ((~other /\ gray) => (Cardinality(Good(Outs)) = 1 /\ Bad(Outs) = Fails(RowC.nf)))
 \* tx-level selectors ignore the index
 IndexIgnored == (Applies /\ RowC.sc \in {"tx", "policy"}) => Outs = GtfOutcomes(Tx, TxOff, c.sel, "0")
 PolicyLaw == (Applies /\ RowC.sc = "policy") =>
@@ -160,6 +161,7 @@ TableWellFormed ==
           /\ r.fam \cap r.gfam = {}
           /\ (r.sc = "input" => r.fam \cup r.gfam \subseteq AnyIn) /\ (r.sc = "output" => r.fam \cup r.gfam \subseteq AnyOut)
           /\ r.sc \in ListScopes \cup {"tx", "policy"}
+          /\ (r.sc \in ListScopes <=> r.nf # {}) /\ (r.sc \in ListScopes => ScopeMiss(r.sc) \in r.nf)
     /\ \A s, t \in GtfSelectors : (GtfTable[s].n = GtfTable[t].n) => s = t
     /\ Cardinality(GtfSelectors) = 82
 
